@@ -323,7 +323,14 @@ static void run_cond(int timed_mode)
     while (S.waits_done < S.nwaits_total) {
         lock(&me);
         expire();
-        if (S.H > 0) {
+        /* waiters with a deadline that will be reached are not helped: a timed wait that nobody
+         * wakes returns once its deadline has passed (virtual time moves with every step) */
+        int need = 0;
+        for (int i = 0; i < S.nw; i++)
+            if (S.W[i].registered && !S.W[i].returned && (!S.W[i].timed || S.W[i].deadline >= sim_now_ns() + FAR_NS / 2))
+                need++;
+        /* (a waiter that registers between this look and its wait call is seen next time) */
+        if (S.H > 0 && need > 0) {
             model_bcast_pre();
             ABT_OK(ABT_cond_broadcast(S.cv));
             model_bcast_post();
